@@ -240,6 +240,27 @@ Plan(cfg, w, rules) ==
                   result |-> [kind |-> "err", groups |-> <<>>,
                               errs |-> wk.result.errs \cup CandPlan(cfg, w, rules, lr, Pos(cs, lr)).errs]]
 
+\* [hosts] does not say how the hosts table and the search list interact.  Two readings are
+\* accepted: the table is consulted for each candidate name in turn (Plan above), or -- as the
+\* C library does -- for the name as typed before anything else, and only if it is not there
+\* the candidates are walked.
+HostsAsTyped(cfg) ==
+    LET c == cfg.name.labels
+        ty == TypesOf(cfg)
+        g(t) == IF t \in {"A", "AAAA"} /\ HasHost(EffHosts(cfg), c, t) THEN <<Group(t, [src |-> "hosts", o |-> "data"], c)>> ELSE <<>>
+    IN IF IsLiteral(cfg) THEN <<>>
+       ELSE IF ModeOf(cfg) = "only" THEN g(ty[1])
+       ELSE IF ModeOf(cfg) = "and" THEN g(ty[1]) \o g(ty[2])
+       ELSE IF g(ty[1]) # <<>> THEN g(ty[1]) ELSE g(ty[2])
+
+PlanTypedFirst(cfg, w, rules) ==
+    IF HostsAsTyped(cfg) # <<>>
+    THEN [steps |-> <<>>, result |-> [kind |-> "ok", groups |-> HostsAsTyped(cfg), errs |-> {}]]
+    ELSE Plan(cfg, w, rules)
+
+\* everything the specification accepts
+Plans(cfg, w) == {Plan(cfg, w, Strict), PlanTypedFirst(cfg, w, Strict)}
+
 ----------------------------------------------------------------------------
 \* comparing an observed sequence of questions <<[n, t], ...>> (repeats of a question already
 \* asked removed) with prescribed steps: the types of one step may come in any order
@@ -260,6 +281,9 @@ ResultAgrees(obs, exp) ==
     /\ obs.kind = "err" => obs.err \in exp.errs
 
 Questions(asked) == [j \in DOMAIN asked |-> [n |-> asked[j].n, t |-> asked[j].t]]
+
+Agrees(asked, res, p) == MatchesSteps(Questions(asked), p.steps) /\ ResultAgrees(res, p.result)
+Conforms(cfg, w, asked, res) == \E p \in Plans(cfg, w) : Agrees(asked, res, p)
 
 ----------------------------------------------------------------------------
 \* requirements on the observable history of one lookup: the questions `asked` (sequence of
